@@ -8,6 +8,7 @@ import (
 	"fmt"
 	"io/ioutil"
 	"os"
+	"runtime"
 
 	"github.com/akalin/gopar/rsec16"
 	"github.com/akalin/gopar/rsec16/vsched"
@@ -287,6 +288,9 @@ func init() {
 		}
 	}
 	c12SchedRun = func(c *c12Case, r *core.Rec) {
+		// exactly one goroutine runs at a time under the controlled scheduler; a single P avoids cross-thread hand-offs
+		old := runtime.GOMAXPROCS(1)
+		defer runtime.GOMAXPROCS(old)
 		cfg := newSchedCfg(c, r.Seed)
 		count := 0
 		cfg.explore(c.Prefix, c.Split, c.Bound, r, c, &count)
